@@ -29,7 +29,10 @@ RULE = (
     "on a TravelCalculator, and of Cover API calls / incoming telegrams (position reports, up/down, stop, step, target position) on a Cover; "
     "clock advances from {0, 1e-7, k/8 of the remaining travel time, k/8 of the up / down time for the distance, exactly the end instant +-1 ulp, "
     "one position step, beyond}; travel times 0.5..300 s asymmetric; clock base 0, 1000 or 1.7e9; optional clock tick between the readings of one query; "
-    "non-trivial = at least one query strictly inside a running travel (0 < elapsed < required); distinct by (times, base, ops)"
+    "Cover API calls are followed by their queued telegrams processed as outgoing; a 'tick' op lets 1 s of virtual time pass so the Cover's periodic "
+    "callback / auto-stop run; a position report that arrives while the cover is certainly at rest (never moved, stopped, or travel time elapsed) "
+    "must make the estimate equal the reported position with is_traveling False; "
+    "non-trivial = at least one query strictly inside a running travel (0 < elapsed < required) or a report at rest after a travel that completed by time; distinct by (times, base, ops)"
 )
 LEVEL_TEXT = (
     "Every generated history is executed on the real calculator in lock-step with an exact rational model; after every command "
@@ -41,7 +44,7 @@ LEVEL_NOTE = (
     "The clock is the module attribute xknx.devices.travelcalculator.time replaced by a generated float clock; comparisons of elapsed "
     "time allow 2^-44 relative slack for the float arithmetic of the code under test. Below a Cover the model follows the calculator "
     "calls the Cover actually makes (the Cover is a realistic driver, not modelled itself); timers of the Cover (auto-stop, periodic "
-    "callback) never fire: the Cover histories run on the virtual-time loop and only yield with sleep(0). While a stand-alone query runs the clock may "
+    "callback) only fire in the explicit 'tick' op: the Cover histories run on the virtual-time loop and otherwise only yield with sleep(0). While a stand-alone query runs the clock may "
     "move on between the readings taken inside it (tick 0, 1e-7, 1e-3 or 0.3 s); commands see one reading."
 )
 ASSUMPTIONS = [
@@ -52,6 +55,8 @@ ASSUMPTIONS = [
     "arrive strictly during the travel and short of the target; reports while stopped, after the travel time expired, equal to the target or past "
     "it only have to keep the estimate between the report and the target, monotone",
     "integer estimates: elapsed >= required => estimate == target; elapsed < required - one position step of time => estimate != target",
+    "Cover: a position report received while the cover is at rest (no travel started, stopped, or the travel time of the last command has elapsed) is both the last known "
+    "position and the target: the estimate equals the reported position and is_traveling() is False; near the end instant (within one position step) nothing is demanded",
 ]
 
 POS_MAX = 100
@@ -103,6 +108,7 @@ class Tracker:
         self.seg_last: int | None = None
         # accounting
         self.mid_queries = 0
+        self.rest_reports = 0
         self.labels: set[str] = set()
         self.trace: list = []
 
@@ -111,11 +117,33 @@ class Tracker:
         return getattr(self._calc, name)
 
     # ---- helpers -----------------------------------------------------------
+    dead = False  # a violation was recorded: nothing further is checked in this history
+
     def _fail(self, bucket: str, detail: str) -> None:
         self._ctx.fail(bucket, self._inp, detail + f" | trace tail {self.trace[-6:]}")
+        self.dead = True
         raise Stop
 
+    def at_rest(self) -> bool | None:
+        """Is the cover certainly at rest (True), certainly travelling (False) or near the end instant / ambiguous (None)."""
+        if self.lk is None:
+            return True
+        tgt = self.lk if self.tgt is None else self.tgt
+        if not self.strict:
+            return True if tgt == self.lk else None
+        if tgt == self.lk:
+            return True
+        now = Fraction(self._clock.now)
+        eps = self._eps(now)
+        if now - self.ts_hi >= self.required + eps:
+            return True
+        if now - self.ts_lo < self.required - self.required / abs(tgt - self.lk) - eps:
+            return False
+        return None
+
     def _call(self, what: str, fn, *a):
+        if self.dead:
+            raise Stop
         try:
             return fn(*a)
         except Stop:
@@ -367,13 +395,32 @@ _cover_op = st.one_of(
     st.tuples(st.just("t_step"), st.integers(0, 1)),
     st.tuples(st.just("t_target"), _raw),
     st.just(("q",)),
+    st.just(("c_tick",)),
     _adv,
     _adv,
     _adv,
     _adv,
 )
+_move = st.one_of(
+    st.just(("c_down",)),
+    st.just(("c_up",)),
+    st.tuples(st.just("t_updown"), st.integers(0, 1)),
+    st.tuples(st.just("c_setpos"), _pos),
+    st.tuples(st.just("t_target"), _raw),
+)
+# position known -> movement command -> its travel completes by elapsed time (optionally the cover's periodic
+# task runs) -> position report while the cover is at rest
+_rest_report = st.tuples(
+    st.tuples(st.just("t_report"), _raw, st.booleans()),
+    _move,
+    st.tuples(st.just("adv"), st.just("beyond"), st.integers(0, 5)),
+    st.sampled_from([("c_tick",), ("q",)]),
+    st.tuples(st.just("t_report"), _raw, st.booleans()),
+).map(list)
 _cover_prefix = st.one_of(
     st.just([]),
+    _rest_report,
+    _rest_report,
     st.tuples(st.just("t_report"), _raw, st.booleans()).map(lambda o: [o]),
     st.tuples(st.just("t_report"), _raw, st.booleans()).map(lambda o: [o, ("c_down",)]),
     st.tuples(st.just("t_report"), _raw, st.booleans()).map(lambda o: [o, ("t_updown", 0)]),
@@ -504,7 +551,40 @@ def run_cover(ctx, h) -> Tracker:
                 ctx.fail(f"C40:exc:{exc_site(e)}", h, f"Cover {what}{a} raised {e!r} at clock {clock.now!r}")
                 raise Stop from None
 
+        def drain() -> None:
+            """Feed the telegrams the Cover queued back as outgoing telegrams, as the telegram queue does."""
+            n = 0
+            while not xknx.telegrams.empty() and n < 20:
+                t = xknx.telegrams.get_nowait()
+                xknx.telegrams.task_done()
+                if t is not None:
+                    xknx.devices.process(t)
+                n += 1
+
+        async def api(what, fn, *a):
+            await guarded(what, fn, *a)
+            await guarded(what + " (outgoing telegram)", drain)
+
+        async def report(raw: int, response: bool) -> None:
+            rest = tr.at_rest()
+            completed = rest is True and tr.strict
+            payload = DPTArray(raw)
+            await guarded("report", incoming, GA["pos_state"], payload, response)
+            if rest is True and cover.position_current.last_payload is payload:
+                tr.labels.add("report-at-rest-after-completed-travel" if completed else "report-at-rest")
+                if completed:
+                    tr.rest_reports += 1
+                x = cover.position_current.value
+                est = tr._call("Cover.current_position", cover.current_position)
+                trav = tr._call("Cover.is_traveling", cover.is_traveling)
+                if est != x:
+                    tr._fail("C40:cover:report-at-rest:estimate-differs-from-report", f"position report {x} (raw {raw}) while the cover is at rest: estimate {est!r}")
+                if trav:
+                    tr._fail("C40:cover:report-at-rest:travelling", f"position report {x} (raw {raw}) while the cover is at rest: is_traveling() True, estimate {est!r}")
+
         def cover_query() -> None:
+            if tr.dead:
+                raise Stop
             tr.query_all()
             for name in ("current_position", "is_traveling", "position_reached", "is_open", "is_closed", "is_opening", "is_closing"):
                 tr._call(f"Cover.{name}", getattr(cover, name))
@@ -514,15 +594,19 @@ def run_cover(ctx, h) -> Tracker:
             for op in h["ops"]:
                 name = op[0]
                 if name == "c_up":
-                    await guarded("set_up", cover.set_up)
+                    await api("set_up", cover.set_up)
                 elif name == "c_down":
-                    await guarded("set_down", cover.set_down)
+                    await api("set_down", cover.set_down)
                 elif name == "c_stop":
-                    await guarded("stop", cover.stop)
+                    await api("stop", cover.stop)
                 elif name == "c_setpos":
-                    await guarded("set_position", cover.set_position, int(op[1]))
+                    await api("set_position", cover.set_position, int(op[1]))
+                elif name == "c_tick":
+                    # virtual time passes: the Cover's periodic callback (1 s) and a due auto-stop run
+                    await asyncio.sleep(1.01)
+                    await guarded("tasks (outgoing telegram)", drain)
                 elif name == "t_report":
-                    await guarded("report", incoming, GA["pos_state"], DPTArray(int(op[1])), bool(op[2]))
+                    await report(int(op[1]), bool(op[2]))
                 elif name == "t_updown":
                     await guarded("updown", incoming, GA["long"], DPTBinary(int(op[1])))
                 elif name == "t_stop":
@@ -548,8 +632,13 @@ def run_cover(ctx, h) -> Tracker:
     # virtual-time loop: the Cover's timers (1 s periodic callback, auto-stop) never fire while the
     # history is interpreted with sleep(0) steps - deterministic regardless of machine load
     with _Patched(clock):
-        run_case(lambda _loop: scenario(), max_iters=200_000)
-    return holder["tr"]
+        _res, vl = run_case(lambda _loop: scenario(), max_iters=200_000)
+    tr = holder["tr"]
+    for esc in vl.escaped:
+        if not isinstance(esc.get("exception"), Stop) and not tr.dead:
+            ctx.fail(f"C40:exc-in-cover-task:{exc_site(esc['exception']) if esc.get('exception') is not None else 'unknown'}", h, esc.get("repr", ""))
+            break
+    return tr
 
 
 def oracle(ctx, h) -> None:
@@ -559,8 +648,8 @@ def oracle(ctx, h) -> None:
         cls.append("epoch-clock")
     if h.get("tick"):
         cls.append("clock-ticks-between-readings")
-    nontrivial = tr.mid_queries > 0
-    if nontrivial:
+    nontrivial = tr.mid_queries > 0 or tr.rest_reports > 0
+    if tr.mid_queries > 0:
         cls.append("mid-travel-query")
     sample = None
     if nontrivial and len(h["ops"]) >= 8:
